@@ -190,7 +190,38 @@ func runBatcher(c BCase) bResult {
 		// the backlog is consumed; a tick must come by and flush them although input never pauses
 		bound := float64(c.MaxAgeMs + 2*c.TickMs + slackMs)
 		deadline := started.Add(time.Duration(bound*4) * time.Millisecond)
-		first := -1.0
+		// keep the backlog alive for 2.5 x the bound however fast the batcher consumes: four refillers top the
+		// channel up whenever it is less than half full
+		stopRefill := make(chan struct{})
+		var rw sync.WaitGroup
+		for f := 0; f < 4; f++ {
+			rw.Add(1)
+			go func(f int) {
+				defer rw.Done()
+				n := backlogN + f
+				for time.Since(started) < time.Duration(bound*2.5)*time.Millisecond {
+					select {
+					case <-stopRefill:
+						return
+					default:
+					}
+					if len(in) > cap(in)/2 {
+						time.Sleep(200 * time.Microsecond)
+						continue
+					}
+					for k := 0; k < 2000; k++ {
+						n += 4
+						m := &marshaller.MarshalledMessage{Operation: "INSERT", Table: "public.t", Json: []byte(fmt.Sprintf("%020d", n)), TimeBasedKey: "7-1", WalStart: uint64(n), Transaction: "7", PartitionKey: fmt.Sprintf("k%d", n%c.Keys)}
+						select {
+						case in <- m:
+						default:
+						}
+					}
+				}
+			}(f)
+		}
+		defer func() { close(stopRefill); rw.Wait() }()
+		first, leftAtFirst := -1.0, 0
 		for time.Now().Before(deadline) {
 			mu.Lock()
 			n := len(gotAt)
@@ -204,6 +235,7 @@ func runBatcher(c BCase) bResult {
 			left := len(in)
 			mu.Unlock()
 			if n > 0 || left == 0 {
+				leftAtFirst = left
 				break
 			}
 			time.Sleep(time.Millisecond)
@@ -211,7 +243,7 @@ func runBatcher(c BCase) bResult {
 		sh.CancelFunc()
 		wg.Wait()
 		close(statsCh)
-		res := bResult{BoundMs: bound, Records: backlogN, WorstMs: first}
+		res := bResult{BoundMs: bound, Records: backlogN, WorstMs: first, Undelivered: leftAtFirst}
 		if first < 0 || first > bound {
 			late := "none within 4 x the bound"
 			if first >= 0 {
